@@ -9,6 +9,7 @@ import (
 	"os"
 	"path/filepath"
 
+	"github.com/grafana/cog/internal/ast"
 	"github.com/grafana/cog/internal/codegen"
 	"github.com/grafana/cog/internal/jennies/golang"
 	"github.com/grafana/cog/internal/jennies/jsonschema"
@@ -101,4 +102,91 @@ func writeFiles(root string, files map[string][]byte) error {
 		}
 	}
 	return nil
+}
+
+// loadSchemas runs only the front-end (+ consolidation and common passes) of the pipeline.
+func (lr labRun) loadSchemas() (schemas ast.Schemas, err error) {
+	defer func() {
+		if rec := recover(); rec != nil {
+			err = fmt.Errorf("PANIC: %v", rec)
+		}
+	}()
+	p, err := lr.pipeline()
+	if err != nil {
+		return nil, err
+	}
+	return p.LoadSchemas(context.Background())
+}
+
+// chainIR loads the schemas afresh and applies the compiler passes of one target language
+// ("go" | "python"), i.e. the IR the jennies of that language see. With builders set, the
+// builder IR (FromAST + veneers + nil checks) is returned as well.
+func (lr labRun) chainIR(lang string) (schemas ast.Schemas, builders ast.Builders, err error) {
+	defer func() {
+		if rec := recover(); rec != nil {
+			err = fmt.Errorf("PANIC: %v", rec)
+		}
+	}()
+	p, err := lr.pipeline()
+	if err != nil {
+		return nil, nil, err
+	}
+	loaded, err := p.LoadSchemas(context.Background())
+	if err != nil {
+		return nil, nil, err
+	}
+	langs, err := p.OutputLanguages()
+	if err != nil {
+		return nil, nil, err
+	}
+	target, ok := langs[lang]
+	if !ok {
+		return nil, nil, fmt.Errorf("language %s is not configured", lang)
+	}
+	ctx, err := p.ContextForLanguage(target, loaded)
+	if err != nil {
+		return nil, nil, err
+	}
+	return ctx.Schemas, ctx.Builders, nil
+}
+
+// writeSchemaFile stores a rendered schema where the pipeline expects it and returns the path
+// to hand to labRun.Path (CUE: a directory named after the package containing schema.cue).
+func writeSchemaFile(dir, format, pkg, text string) (string, error) {
+	switch format {
+	case "cue":
+		d := filepath.Join(dir, pkg)
+		if err := os.MkdirAll(d, 0o755); err != nil {
+			return "", err
+		}
+		return d, os.WriteFile(filepath.Join(d, "schema.cue"), []byte(text), 0o644)
+	case "jsonschema":
+		if err := os.MkdirAll(dir, 0o755); err != nil {
+			return "", err
+		}
+		p := filepath.Join(dir, pkg+".jsonschema.json")
+		return p, os.WriteFile(p, []byte(text), 0o644)
+	case "openapi":
+		if err := os.MkdirAll(dir, 0o755); err != nil {
+			return "", err
+		}
+		p := filepath.Join(dir, pkg+".openapi.json")
+		return p, os.WriteFile(p, []byte(text), 0o644)
+	}
+	return "", fmt.Errorf("unknown format %s", format)
+}
+
+var labFormats = []string{"jsonschema", "openapi", "cue"}
+var labFormatSuffix = map[string]string{"jsonschema": "js", "openapi": "oa", "cue": "cue"}
+
+func renderDefs(d *Defs, format, pkg string) renderOut {
+	switch format {
+	case "jsonschema":
+		return renderJSONSchema(d)
+	case "openapi":
+		return renderOpenAPI(d)
+	case "cue":
+		return renderCUE(d, pkg)
+	}
+	return renderOut{Unsupported: []string{"format:" + format}}
 }
